@@ -147,3 +147,185 @@ func famServe(o *corr.Out) {
 		d.Settle()
 	}
 }
+
+// ---- Serve / Tracker against the Lean model (Drpc/Server/Serve.lean) -------------------------------
+
+type tempErr struct{}
+
+func (tempErr) Error() string   { return "temporary accept failure" }
+func (tempErr) Timeout() bool   { return false }
+func (tempErr) Temporary() bool { return true }
+
+// mlistener: a closed listener fails Accept; otherwise queued errors come first, then queued
+// connections; otherwise Accept blocks.
+type mlistener struct {
+	mu       sync.Mutex
+	cond     *sync.Cond
+	connsAny []net.Conn
+	errs     []error
+	closes   int
+}
+
+func newMListener() *mlistener { l := &mlistener{}; l.cond = sync.NewCond(&l.mu); return l }
+
+func (l *mlistener) Accept() (net.Conn, error) {
+	l.mu.Lock()
+	defer l.mu.Unlock()
+	for {
+		switch {
+		case l.closes > 0:
+			return nil, errors.New("listener closed")
+		case len(l.errs) > 0:
+			e := l.errs[0]
+			l.errs = l.errs[1:]
+			return nil, e
+		case len(l.connsAny) > 0:
+			c := l.connsAny[0]
+			l.connsAny = l.connsAny[1:]
+			return c, nil
+		}
+		l.cond.Wait()
+	}
+}
+func (l *mlistener) Close() error {
+	l.mu.Lock()
+	l.closes++
+	l.cond.Broadcast()
+	l.mu.Unlock()
+	return nil
+}
+func (l *mlistener) Addr() net.Addr { return addr{} }
+
+// readEnd notes the first Read on a connection (ServeOne has started).
+type readEnd struct {
+	*netEnd
+	once    sync.Once
+	started func()
+}
+
+func (r *readEnd) Read(p []byte) (int, error) {
+	r.once.Do(r.started)
+	return r.netEnd.Read(p)
+}
+
+func famServeModel(o *corr.Out, n int) {
+	r := o.Rand
+	for it := 0; it < n; it++ {
+		d := director.New()
+		lis := newMListener()
+		ctx, cancel := context.WithCancel(context.Background())
+		srv := drpcserver.New(handler{&World{D: d, enc: &sm.Enc{}}})
+		d.Go("serve", func() string { return errName(srv.Serve(ctx, lis)) })
+		d.Settle()
+		var mu sync.Mutex
+		var served []int
+		type cn struct {
+			a  *director.End
+			nb *netEnd
+		}
+		var conns []cn
+		nops := 1 + r.Intn(6)
+		var ops, obs []string
+		usedTemp := false
+		for i := 0; i < nops; i++ {
+			var op string
+			switch k := r.Intn(10); {
+			case k < 4:
+				op = "connect"
+			case k < 6:
+				op = "cancel"
+			case k < 7 && !usedTemp:
+				op = "accepterr:temp"
+				usedTemp = true
+			case k < 8:
+				op = "accepterr:perm"
+			default:
+				if len(conns) == 0 {
+					op = "connect"
+				} else {
+					op = fmt.Sprintf("end:%d", r.Intn(len(conns)))
+				}
+			}
+			ops = append(ops, op)
+			switch {
+			case op == "connect":
+				p, a, b := director.NewPipe()
+				p.Flow = true
+				id := len(conns)
+				nb := &netEnd{End: b}
+				conns = append(conns, cn{a, nb})
+				re := &readEnd{netEnd: nb, started: func() { mu.Lock(); served = append(served, id); mu.Unlock() }}
+				lis.mu.Lock()
+				if lis.closes == 0 {
+					lis.connsAny = append(lis.connsAny, re)
+					lis.cond.Broadcast()
+				} else {
+					conns = conns[:len(conns)-1] // the model refuses a connection to a closed listener: forget it
+				}
+				lis.mu.Unlock()
+			case op == "cancel":
+				cancel()
+			case strings.HasPrefix(op, "accepterr"):
+				lis.mu.Lock()
+				if op == "accepterr:temp" {
+					lis.errs = append(lis.errs, tempErr{})
+				} else {
+					lis.errs = append(lis.errs, errors.New("permanent accept failure"))
+				}
+				lis.cond.Broadcast()
+				lis.mu.Unlock()
+			default:
+				var c int
+				fmt.Sscanf(op, "end:%d", &c)
+				conns[c].a.Break()
+			}
+			if op == "accepterr:temp" {
+				time.Sleep(650 * time.Millisecond) // Serve sleeps 500ms after a temporary error
+			}
+			d.Settle()
+			res, done := d.Result("serve")
+			ret := "-"
+			if done {
+				if res == "nil" {
+					ret = "nil"
+				} else {
+					ret = "err"
+				}
+			}
+			lis.mu.Lock()
+			closes := lis.closes
+			lis.mu.Unlock()
+			mu.Lock()
+			sv := append([]int(nil), served...)
+			mu.Unlock()
+			var ended []int
+			for id, c := range conns {
+				c.nb.mu.Lock()
+				if c.nb.closes > 0 {
+					ended = append(ended, id)
+				}
+				c.nb.mu.Unlock()
+			}
+			obs = append(obs, fmt.Sprintf("[ret=%s returned=%s closes=%d served=%s ended=%s]", ret, b01(done), closes, ids(sv), ids(ended)))
+		}
+		o.Case("serve ops="+strings.Join(ops, ","), strings.Join(obs, " "), len(ops) >= 3)
+		o.Stat(fmt.Sprintf("serve-model:ops%d", len(ops)))
+		cancel()
+		for _, c := range conns {
+			c.a.Break()
+			c.nb.End.Break()
+		}
+		d.Settle()
+	}
+}
+
+func ids(xs []int) string {
+	if len(xs) == 0 {
+		return "-"
+	}
+	var s []string
+	for _, x := range xs {
+		s = append(s, fmt.Sprint(x))
+	}
+	return strings.Join(s, ".")
+}
